@@ -480,3 +480,33 @@ Definition split_verdict (c : split_case) : verdict :=
         else ModelUndefined
       else Differ
   end.
+
+(* ---- C05: parameter delivery ---- *)
+From Lekkersim Require Import Params.
+
+(* the user's functions by number: 0: 2x+1, 1: x+2y, 2: x/2 (arguments by position) *)
+Definition fnlib (f : nat) (args : dict) : val :=
+  let x := match args with (_, v) :: _ => v | _ => 0%Q end in
+  let y := match args with _ :: (_, v) :: _ => v | _ => 0%Q end in
+  match f with
+  | O => (2 * x + 1)%Q
+  | S O => (x + 2 * y)%Q
+  | _ => (x / 2)%Q
+  end.
+
+Record par_case := { pa_tree : ptree; pa_kw : dict; pa_obs : obs (list QcCf) }.
+
+Definition qval (m e : Z) : Q :=
+  if (0 <=? e)%Z then inject_Z (m * 2 ^ e) else (m # (Z.to_pos (2 ^ (- e)))).
+
+Definition par_verdict (c : par_case) : verdict :=
+  match pa_obs c with
+  | Raised => ImplError
+  | Obs o =>
+      let vals := deliver fnlib (pa_tree c) (pa_kw c) in
+      if Nat.eqb (List.length vals) (List.length o) &&
+         all2 (fun v x => match v with
+                          | Some q => cclose tol12 (BigQ.of_Q (Qred q), BigQ.zero) x
+                          | None => false end) vals o
+      then Agree else Differ
+  end.
